@@ -6,6 +6,8 @@ import FitModel.Generated.ProfileTypes
 import FitModel.Generated.ProfileStrs
 import FitModel.Generated.GenDigest
 import FitModel.Generated.Untyped
+import FitModel.Typed
+import FitModel.Generated.Mesgdef
 /-! Definitions used in the statements of C17 (`FitProps/C17.lean`). The kernel evaluations of the statements live in
 the `C17*Lemmas` modules, one per group of tables, so that lake re-checks them in parallel. -/
 namespace Fit.C17
@@ -48,5 +50,44 @@ def expectedBaseNames (ts : List TypeRow) : List (Nat × Nat) :=
   match ts.find? (·.name == 0x16669745f626173655f74797065 /- "fit_base_type" -/) with
   | some t => t.consts.map fun c => (c.name, c.value)
   | none => []
+
+/-! ### the typed messages (profile/mesgdef) against the spreadsheet -/
+
+/-- the field numbers of a message that a component (of a field or of a sub-field) expands into -/
+def componentTargets (m : Mesg) : List Nat :=
+  m.fields.flatMap fun f => f.comps.map (·.num) ++ f.subs.flatMap fun s => s.comps.map (·.num)
+
+def isTimeType (p : Nat) : Bool :=
+  p == 0x1646174655f74696d65 /- "date_time" -/ || p == 0x16c6f63616c5f646174655f74696d65 /- "local_date_time" -/
+
+def isBoolType (p : Nat) : Bool := p == 0x1626f6f6c /- "bool" -/
+
+/-- One slot of a typed struct (as probed from the compiled code) is what the spreadsheet row of that field prescribes:
+same base type; eligible for the expanded bitmap iff some component of the message expands into it; a `time.Time` iff the
+type is date_time / local_date_time; a `typedef.Bool` iff the type is bool; a string iff the base type is string; a slice
+iff the Array cell is `[N]`; an array of n iff it is `[n]`; a scalar otherwise. -/
+def slotMatches (m : Mesg) (fl : FixedLens) (s : Fit.Typed.Slot) : Bool :=
+  match m.fields.find? (·.num == s.num) with
+  | none => false
+  | some f =>
+    s.baseType == f.baseType && (s.canExpand == (componentTargets m).contains s.num) &&
+    match s.kind with
+    | .time => isTimeType f.ptype && !f.array
+    | .bool => isBoolType f.ptype && !f.array
+    | .str => f.baseType == 7 && !f.array
+    | .scalar => !f.array && f.baseType != 7 && !isBoolType f.ptype && !isTimeType f.ptype
+    | .slice => f.array && fixedLenOf fl m.num f.num == 0
+    | .fixed n => f.array && fixedLenOf fl m.num f.num == n && n != 0
+
+/-- a typed struct against its message: same name (up to case / underscores), one slot per field and vice versa, each
+slot as prescribed, and ToMesg emits the fields in the order of the sheet rows -/
+def tableMatchesXlsx (ms : List Mesg) (fl : FixedLens) (order : List (Nat × List Nat)) (T : Fit.Typed.MesgTable) : Bool :=
+  match ms.find? (·.num == T.num) with
+  | none => false
+  | some m =>
+    normIdent T.name == normIdent m.name && T.slots.all (slotMatches m fl) &&
+    (match order.find? (·.1 == T.num) with
+     | some o => T.slots.map (·.num) == o.2
+     | none => false)
 
 end Fit.C17
